@@ -10,7 +10,11 @@ package dt
 // ---------------------------------------------------------------------------
 
 //@ ghost List.elems seq
+// a freshly allocated List has an empty view
+//@ ghostinit List.elems(l) = []
 //@ ghost Element.idx int
+// lastIns: the position at which the most recent insertion into the list landed
+//@ ghost List.lastIns int
 
 // wf(l): well-formedness of an initialised list. Forward links, backward
 // links, ownership, Len and the view all describe the same sequence.
@@ -32,16 +36,17 @@ package dt
 //@ func (*Element).uncheckedAppend
 //@   props C16
 //@   requires e != nil && e.list != nil && wf(e.list) && new != nil && allocated(new) && new.list == nil && new != e.list.root && new.ok
-//@   modifies e.list.length, new.list, new.prev, new.next, e.next, e.next.prev, e.list.elems, Element.idx
+//@   modifies e.list.length, new.list, new.prev, new.next, e.next, e.next.prev, e.list.elems, e.list.lastIns, Element.idx
 //@   ghostset e.list.elems = insert(old(e.list.elems), pos(e.list, e), new)
+//@   ghostset e.list.lastIns = old(pos(e.list, e))
 //@   ghostall Element.idx(x) = x == new ? pos(e.list, e) : (x.list == e.list && x != e.list.root && x.idx >= pos(e.list, e) ? x.idx + 1 : x.idx)
 //@   ensures wf(e.list) && new.list == e.list
-//@   ensures e.list.elems == insert(old(e.list.elems), old(pos(e.list, e)), new)
+//@   ensures e.list.elems == insert(old(e.list.elems), old(pos(e.list, e)), new) && e.list.lastIns == old(pos(e.list, e))
 
 //@ func (*Element).uncheckedRemove
 //@   props C16
 //@   requires e != nil && e.list != nil && wf(e.list) && member(e.list, e)
-//@   modifies e.list.length, e.list, e.prev.next, e.next.prev, e.list.elems, Element.idx
+//@   modifies e.list.length, e.list, e.prev.next, e.next.prev, e.list.elems, e.list.lastIns, Element.idx
 //@   ghostset old(e.list).elems = remove(old(e.list.elems), old(e.idx))
 //@   ghostall Element.idx(x) = old(x.list) == old(e.list) && x != old(e.list.root) && old(x.idx) > old(e.idx) ? old(x.idx) - 1 : old(x.idx)
 //@   ensures e.list == nil && wf(old(e.list))
@@ -68,7 +73,7 @@ package dt
 //@ func (*List).pop
 //@   props C16
 //@   requires wf(l) && it != nil && allocated(it) && (it.list != nil ==> wf(it.list))
-//@   modifies l.length, it.list, it.prev.next, it.next.prev, l.elems, Element.idx
+//@   modifies l.length, it.list, it.prev.next, it.next.prev, l.elems, l.lastIns, Element.idx
 //@   ensures wf(l)
 //@   ensures removed: old(member(l, it)) ==> result == it && it.list == nil && l.elems == remove(old(l.elems), old(it.idx))
 //@   ensures rejected: !old(member(l, it)) ==> fresh(result) && !result.ok && result.list == nil && l.elems == old(l.elems) && it.list == old(it.list)
@@ -77,7 +82,7 @@ package dt
 //@   props C16
 //@   requires l == nil || lwf(l)
 //@   panics when l == nil
-//@   modifies l.root, l.length, Element.list, Element.next, Element.prev, l.elems, Element.idx
+//@   modifies l.root, l.length, Element.list, Element.next, Element.prev, l.elems, l.lastIns, Element.idx
 //@   ensures wf(l)
 //@   ensures nonempty: len(old(l.elems)) > 0 ==> result == old(l.elems[0]) && result.list == nil && l.elems == old(l.elems)[1:]
 //@   ensures empty: len(old(l.elems)) == 0 ==> fresh(result) && !result.ok && len(l.elems) == 0
@@ -86,7 +91,7 @@ package dt
 //@   props C16
 //@   requires l == nil || lwf(l)
 //@   panics when l == nil
-//@   modifies l.root, l.length, Element.list, Element.next, Element.prev, l.elems, Element.idx
+//@   modifies l.root, l.length, Element.list, Element.next, Element.prev, l.elems, l.lastIns, Element.idx
 //@   ensures wf(l)
 //@   ensures nonempty: len(old(l.elems)) > 0 ==> result == old(l.elems[len(l.elems) - 1]) && result.list == nil && l.elems == old(l.elems)[:len(old(l.elems)) - 1]
 //@   ensures empty: len(old(l.elems)) == 0 ==> fresh(result) && !result.ok && len(l.elems) == 0
@@ -112,31 +117,31 @@ package dt
 //@ func (*Element).Append
 //@   props C16
 //@   requires e != nil && allocated(e) && anchored(e) && (new != nil ==> allocated(new) && new != e && (new.list != nil ==> wf(new.list)))
-//@   modifies e.list.length, new.list, new.prev, new.next, e.next, e.next.prev, e.list.elems, Element.idx
+//@   modifies e.list.length, new.list, new.prev, new.next, e.next, e.next.prev, e.list.elems, e.list.lastIns, Element.idx
 //@   ensures rejected: (new == nil || !old(new.ok) || old(e.list) == nil || old(new.list) != nil) ==> result == e && (old(e.list) != nil ==> e.list.elems == old(e.list.elems) && wf(e.list)) && (new != nil ==> new.list == old(new.list) && new.next == old(new.next) && new.prev == old(new.prev))
-//@   ensures accepted: !(new == nil || !old(new.ok) || old(e.list) == nil || old(new.list) != nil) ==> result == new && wf(e.list) && new.list == e.list && e.list.elems == insert(old(e.list.elems), old(pos(e.list, e)), new)
+//@   ensures accepted: !(new == nil || !old(new.ok) || old(e.list) == nil || old(new.list) != nil) ==> result == new && wf(e.list) && new.list == e.list && e.list.elems == insert(old(e.list.elems), old(pos(e.list, e)), new) && e.list.lastIns == old(pos(e.list, e))
 
 //@ func (*List).PushBack
 //@   props C16
 //@   requires l == nil || lwf(l)
 //@   panics when l == nil
-//@   modifies l.root, l.length, Element.list, Element.next, Element.prev, l.elems, Element.idx
+//@   modifies l.root, l.length, Element.list, Element.next, Element.prev, l.elems, l.lastIns, Element.idx
 //@   ensures wf(l) && len(l.elems) == len(old(l.elems)) + 1 && l.elems[:len(old(l.elems))] == old(l.elems)
-//@   ensures cast(l.elems[len(l.elems) - 1], "*Element").item == it && fresh(l.elems[len(l.elems) - 1])
+//@   ensures cast(l.elems[len(l.elems) - 1], "*Element").item == it && fresh(l.elems[len(l.elems) - 1]) && l.lastIns == len(old(l.elems))
 
 //@ func (*List).PushFront
 //@   props C16
 //@   requires l == nil || lwf(l)
 //@   panics when l == nil
-//@   modifies l.root, l.length, Element.list, Element.next, Element.prev, l.elems, Element.idx
+//@   modifies l.root, l.length, Element.list, Element.next, Element.prev, l.elems, l.lastIns, Element.idx
 //@   ensures wf(l) && len(l.elems) == len(old(l.elems)) + 1 && l.elems[1:] == old(l.elems)
-//@   ensures cast(l.elems[0], "*Element").item == it && fresh(l.elems[0])
+//@   ensures cast(l.elems[0], "*Element").item == it && fresh(l.elems[0]) && l.lastIns == 0
 
 // Element.Remove: the root, nil-list (detached) elements are rejected.
 //@ func (*Element).Remove
 //@   props C16
 //@   requires e != nil && allocated(e) && anchored(e)
-//@   modifies e.list.length, e.list, e.prev.next, e.next.prev, e.list.elems, Element.idx
+//@   modifies e.list.length, e.list, e.prev.next, e.next.prev, e.list.elems, e.list.lastIns, Element.idx
 //@   ensures removed: old(e.list) != nil && old(e.list.root) != e ==> result == true && e.list == nil && wf(old(e.list)) && old(e.list).elems == remove(old(e.list.elems), old(e.idx))
 //@   ensures rejected: !(old(e.list) != nil && old(e.list.root) != e) ==> result == false && e.list == old(e.list) && (e.list != nil ==> wf(e.list) && e.list.elems == old(e.list.elems))
 
@@ -158,7 +163,7 @@ package dt
 //@ func (*Element).Swap
 //@   props C16
 //@   requires (e != nil ==> allocated(e) && anchored(e)) && (with != nil ==> allocated(with) && anchored(with))
-//@   modifies e.list.length, Element.list, Element.next, Element.prev, e.list.elems, Element.idx
+//@   modifies e.list.length, Element.list, Element.next, Element.prev, e.list.elems, e.list.lastIns, Element.idx
 //@   ensures rejected: (with == nil || e == nil || old(e.list) == nil || old(e.list) != old(with.list) || e == with || old(e.list.root) == e || old(e.list.root) == with) ==> result == false && (e != nil && old(e.list) != nil ==> e.list == old(e.list) && wf(e.list) && e.list.elems == old(e.list.elems)) && (with != nil && old(with.list) != nil ==> with.list == old(with.list) && with.list.elems == old(with.list.elems))
 //@   ensures swapped: !(with == nil || e == nil || old(e.list) == nil || old(e.list) != old(with.list) || e == with || old(e.list.root) == e || old(e.list.root) == with) ==> result == true && e.list == old(e.list) && with.list == old(e.list) && wf(e.list) && e.list.elems == swap(old(e.list.elems), old(e.idx), old(with.idx))
 
@@ -166,6 +171,67 @@ package dt
 //@ func (*Element).Drop
 //@   props C16
 //@   requires e != nil && allocated(e) && anchored(e)
-//@   modifies e.list.length, e.list, e.prev.next, e.next.prev, e.list.elems, Element.idx, e.item, e.ok
+//@   modifies e.list.length, e.list, e.prev.next, e.next.prev, e.list.elems, e.list.lastIns, Element.idx, e.item, e.ok
 //@   ensures removed: old(e.list) != nil && old(e.list.root) != e ==> e.list == nil && !e.ok && wf(old(e.list)) && old(e.list).elems == remove(old(e.list.elems), old(e.idx))
 //@   ensures rejected: !(old(e.list) != nil && old(e.list.root) != e) ==> e.list == old(e.list) && e.ok == old(e.ok) && (e.list != nil ==> wf(e.list) && e.list.elems == old(e.list.elems))
+
+// ---------------------------------------------------------------------------
+// Ordering (C17). Comparison functions are values of the role dt/cmp.LessThan:
+// pure, total, deterministic functions of their two arguments.
+// ---------------------------------------------------------------------------
+
+//@ purerole dt/cmp.LessThan
+
+// IsSorted(lt) is true exactly when no element is lt its predecessor (and for
+// lists shorter than two).
+//@ func (*List).IsSorted
+//@   props C17
+//@   requires (l == nil || lwf(l)) && lt != nil
+//@   ensures nilorshort: (l == nil || len(l.elems) < 2) ==> result == true
+//@   ensures sorted: l != nil ==> result == (forall i: int :: 1 <= i && i < len(l.elems) ==> !apply(lt, cast(l.elems[i], "*Element").item, cast(l.elems[i - 1], "*Element").item))
+//@   loop 1 invariant wf(l) && len(l.elems) >= 2 && item != nil && (item == l.root || (member(l, item) && item.idx >= 1))
+//@   loop 1 invariant forall i: int :: 1 <= i && i < (item == l.root ? len(l.elems) : item.idx) ==> !apply(lt, cast(l.elems[i], "*Element").item, cast(l.elems[i - 1], "*Element").item)
+
+// Heap: a list kept sorted by LT (no element is LT its predecessor). Push
+// inserts exactly one new element at a position that keeps the list sorted;
+// Pop removes the head. Hence successive pops are non-decreasing and return
+// every pushed value exactly once.
+//@ pred hsorted(h *Heap) = forall i: int :: 1 <= i && i < len(h.list.elems) ==> !apply(h.LT, cast(h.list.elems[i], "*Element").item, cast(h.list.elems[i - 1], "*Element").item)
+//@ pred hinv(h *Heap) = h.list != nil ==> (wf(h.list) && hsorted(h))
+// asymmetry of LT (part of "strict weak ordering"), as far as Push needs it:
+// between the pushed value and the values in the heap
+//@ pred asym(h *Heap, t T) = forall i: int :: 0 <= i && i < len(h.list.elems) ==> (apply(h.LT, t, cast(h.list.elems[i], "*Element").item) ==> !apply(h.LT, cast(h.list.elems[i], "*Element").item, t))
+
+//@ func (*Heap).lazySetup
+//@   props C17
+//@   requires h == nil || hinv(h)
+//@   panics when h == nil || h.LT == nil
+//@   modifies h.list
+//@   ensures h.list != nil && wf(h.list) && hsorted(h)
+//@   ensures old(h.list) != nil ==> h.list == old(h.list) && h.list.elems == old(h.list.elems)
+//@   ensures old(h.list) == nil ==> fresh(h.list) && len(h.list.elems) == 0
+
+//@ func (*Heap).Len
+//@   props C17
+//@   requires h != nil && hinv(h)
+//@   ensures result == (h.list == nil ? 0 : len(h.list.elems))
+
+//@ func (*Heap).Push
+//@   props C17
+//@   requires h == nil || (hinv(h) && (h.list != nil ==> asym(h, t)))
+//@   panics when h == nil || h.LT == nil
+//@   modifies h.list, List.root, List.length, Element.list, Element.next, Element.prev, List.elems, List.lastIns, Element.idx
+//@   ensures wf(h.list) && hsorted(h)
+//@   ensures first: old(h.list) == nil ==> len(h.list.elems) == 1 && cast(h.list.elems[0], "*Element").item == t
+//@   ensures inserted: old(h.list) != nil ==> h.list == old(h.list) && 0 <= h.list.lastIns && h.list.lastIns <= len(old(h.list.elems)) && h.list.elems == insert(old(h.list.elems), h.list.lastIns, h.list.elems[h.list.lastIns]) && cast(h.list.elems[h.list.lastIns], "*Element").item == t && fresh(h.list.elems[h.list.lastIns])
+//@   loop 1 invariant h.list != nil && h.list == old(h.list) && wf(h.list) && hsorted(h) && asym(h, t) && h.list.elems == old(h.list.elems) && len(h.list.elems) > 0 && item != nil && (item == h.list.root || member(h.list, item))
+//@   loop 1 invariant forall j: int :: (item == h.list.root ? 0 : item.idx + 1) <= j && j < len(h.list.elems) ==> apply(h.LT, t, cast(h.list.elems[j], "*Element").item)
+
+//@ func (*Heap).Pop
+//@   props C17
+//@   requires h == nil || hinv(h)
+//@   panics when h == nil || h.LT == nil
+//@   modifies h.list, List.root, List.length, Element.list, Element.next, Element.prev, List.elems, List.lastIns, Element.idx
+//@   ensures wf(h.list) && hsorted(h)
+//@   ensures empty: (old(h.list) == nil || len(old(h.list.elems)) == 0) ==> result1 == false && len(h.list.elems) == 0
+//@   ensures head: old(h.list) != nil && len(old(h.list.elems)) > 0 ==> result1 == true && result0 == cast(old(h.list.elems[0]), "*Element").item && h.list.elems == old(h.list.elems)[1:]
